@@ -17,6 +17,13 @@
 (*                                                                         *)
 (* Deviation TopOnly = TRUE is the pre-fix __process_call_backs: only the  *)
 (* top pending entry is examined per event.                                *)
+(*                                                                         *)
+(* IdleFramesBlind = TRUE is what the code does today (a recorded finding  *)
+(* of C03): trace_call answers a `call` event with None while NO           *)
+(* tracepoint is installed, so CPython gives that invocation no local      *)
+(* trace function - its later line/return/exception events never reach the *)
+(* agent, also after a configuration has arrived.  With FALSE (the         *)
+(* property as stated) every event is handled.                             *)
 (***************************************************************************)
 EXTENDS Naturals, Sequences, FiniteSets, TLC
 
@@ -25,7 +32,9 @@ CONSTANTS Idents,      \* thread idents (reusable)
           Lines,       \* line numbers
           TpSets,      \* the tracepoint configurations to explore (a set of sets of tracepoint records)
           MaxEvents, MaxDepth, MaxGen,
-          TopOnly      \* deviation switch
+          TopOnly,     \* deviation switch
+          IdleFramesBlind,  \* deviation switch (see above)
+          ReinstallMay      \* model bound: a withdrawn configuration may come back (Reconfigure to a set of TpSets)
 
 VARIABLES tps,      \* installed tracepoints: records [id, kind, file, name, line, span, faulty]; changed only by
                     \*   Reconfigure (a new configuration from the service)
@@ -35,7 +44,7 @@ VARIABLES tps,      \* installed tracepoints: records [id, kind, file, name, lin
                     \*   (span tracepoints open a span; the others take a snapshot)
           alive,    \* ident -> BOOLEAN
           gen,      \* ident -> generation number of the thread currently/last using the ident
-          stack,    \* ident -> sequence of frames [fn, inv], last = top
+          stack,    \* ident -> sequence of frames [fn, inv, blind], last = top (blind: the agent gets no local events)
           exc,      \* ident -> an exception is propagating in the top frame
           cb,       \* ident -> pending callback entries, last = top: [open, fn, items]
           items,    \* item id -> [tp, thr, gen, inv, openEv, closed, closer, closerGen]
@@ -103,6 +112,14 @@ Handle(t, ev, fn, line, inv) ==
                                  ev |-> ev, fn |-> fn, line |-> line, thr |-> t]]
        /\ last' = [thr |-> t, ev |-> ev, fn |-> fn, line |-> line]
 
+(* a local event (line / return / exception) of the top frame: handled, unless the frame is blind *)
+HandleLocal(t, ev, line) ==
+    LET top == Top(stack[t]) IN
+    IF top.blind
+      THEN /\ last' = [thr |-> t, ev |-> ev, fn |-> top.fn, line |-> line]
+           /\ UNCHANGED <<items, cb, acted>>
+      ELSE Handle(t, ev, top.fn, line, top.inv)
+
 InitWith(T) ==
     /\ tps = T
     /\ alive = [t \in Idents |-> FALSE]
@@ -134,7 +151,7 @@ Budget == nEv < MaxEvents
 
 EvCall(t, f) ==
     /\ alive[t] /\ ~exc[t] /\ Budget /\ Len(stack[t]) < MaxDepth
-    /\ stack' = [stack EXCEPT ![t] = Append(@, [fn |-> f, inv |-> nInv + 1])]
+    /\ stack' = [stack EXCEPT ![t] = Append(@, [fn |-> f, inv |-> nInv + 1, blind |-> IdleFramesBlind /\ tps = {}])]
     /\ nInv' = nInv + 1 /\ nEv' = nEv + 1
     /\ Handle(t, "call", f, 0, nInv + 1)
     /\ UNCHANGED <<tps, alive, gen, exc, invDone>>
@@ -142,14 +159,14 @@ EvCall(t, f) ==
 EvLine(t, ln) ==
     /\ alive[t] /\ ~exc[t] /\ Budget /\ stack[t] # <<>>
     /\ nEv' = nEv + 1
-    /\ Handle(t, "line", Top(stack[t]).fn, ln, Top(stack[t]).inv)
+    /\ HandleLocal(t, "line", ln)
     /\ UNCHANGED <<tps, alive, gen, stack, exc, invDone, nInv>>
 
 (* the top frame ends: normally, or (exc) because the exception propagates out of it *)
 EvReturn(t) ==
     /\ alive[t] /\ stack[t] # <<>>
     /\ nEv' = nEv + 1
-    /\ Handle(t, "return", Top(stack[t]).fn, 0, Top(stack[t]).inv)
+    /\ HandleLocal(t, "return", 0)
     /\ invDone' = invDone \cup {Top(stack[t]).inv}
     /\ stack' = [stack EXCEPT ![t] = Pop(@)]
     /\ exc' = [exc EXCEPT ![t] = exc[t] /\ Len(stack[t]) > 1]
@@ -159,7 +176,7 @@ EvReturn(t) ==
 EvException(t) ==
     /\ alive[t] /\ Budget /\ stack[t] # <<>>
     /\ nEv' = nEv + 1
-    /\ Handle(t, "exception", Top(stack[t]).fn, 0, Top(stack[t]).inv)
+    /\ HandleLocal(t, "exception", 0)
     /\ exc' = [exc EXCEPT ![t] = TRUE]
     /\ UNCHANGED <<tps, alive, gen, stack, invDone, nInv>>
 
@@ -179,6 +196,7 @@ Reconfigure(T) ==
 
 Next ==
     \/ Reconfigure({})
+    \/ (ReinstallMay /\ \E T \in TpSets : Reconfigure(T))
     \/ \E t \in Idents :
         \/ ThreadStart(t) \/ ThreadEnd(t)
         \/ \E f \in Fns : EvCall(t, f)
